@@ -34,6 +34,15 @@ THEOREMS = [
              "canceling/canceled every call stays in canceling/canceled/failed; the nested call that delivers the fail command "
              "leaves the workflow failed, and the siblings staged beside a queued fail carry run_on_fail. The composition "
              "'a provider call whose transitions queue fail ends failed' is not proved as one statement; runtime errors: C11b"},
+    {"name": "C02f_queued_fail_fails_call / C02f_queue_records_true (props/C02f.v)", "strength": "F",
+     "text": "FAIL COMMAND, whole call: a completion report for a plain task whose satisfied transitions queue `fail` (first in "
+             "the queue: no edge to continue) ends with the workflow failed -- or canceling/canceled -- when it returns"},
+    {"name": "C02e_in_flight_has_active_record / C02e_plain_in_flight_record_active / C02e_paused_canceled_no_active_task / "
+             "C02e_paused_canceled_idle (props/C02e.v)", "strength": "F",
+     "text": "WITH items and plain tasks together, no hypothesis on spec or graph (computed flags: no fault, no table wiped, "
+             "monitors silent): every in-flight key has an active record; paused/canceled => no task active => nothing in "
+             "flight (rests on unconditional sweeps: a task event or a request moves the workflow to paused/canceled only when "
+             "no task is active)"},
     {"name": "C02d_item_in_flight_slot_running / C02d_item_in_flight_record_active / C02d_active_slot_in_flight / "
              "C02d_no_pending_record (props/C02d.v)", "strength": "P",
      "text": "WITH items (no hypothesis on spec or graph; flags as in C12c): an item in flight has a running slot and an active "
